@@ -368,7 +368,9 @@ func checkVisibilityRules(p *core.Program, r *core.Report, rule string) {
 	if gd := mustInl(p, r, rule, domutilPkg+".GetDisplayStyle"); gd != nil {
 		// the inline style decides first
 		checkDisplayPattern(p, r, rule, gd)
-		paths, _, _ := core.EnumerateDecisions(p, gd, core.DecisionOpts{MaxPaths: 100000, Outcome: func(in ssa.Instruction, c *core.Canon) (string, bool) {
+		// (merges are resolved along each path: a helper that hands back the value together
+		// with a "found" flag is the same decision)
+		paths, _, _ := core.EnumerateDecisions(p, gd, core.DecisionOpts{MaxPaths: 100000, ResolvePhis: true, Outcome: func(in ssa.Instruction, c *core.Canon) (string, bool) {
 			if ret, ok := in.(*ssa.Return); ok {
 				return "return " + c.Of(ret.Results[0]), true
 			}
@@ -518,6 +520,8 @@ func checkInnerTextCollector(p *core.Program, r *core.Report, rule string) {
 				{Name: "no children", Guard: core.A("children"), Outcome: "done"},
 				{Name: "visible element / other node: children are rendered", Guard: core.True(), Outcome: "recurse " + child + " => done"},
 			},
+			// a node has one type; an element has one name
+			Excl: [][2]string{{"text", "element"}, {"br", "script"}, {"br", "style"}, {"script", "style"}},
 		}
 		core.CheckDecisionList(r, rule, "InnerText(finder)", paths, atoms, spec)
 	}
